@@ -38,6 +38,24 @@ def _deep_names(crate, r):
     return out
 
 
+def _closure_is_table_test(crate, r):
+    """every closure mentioned by the role returns exactly `table.contains_key(..)` — the test "this class is final" and nothing
+    or-ed to it (`|| leaf_classes.contains(..)` would drop composite candidates of classes that merely own a leaf)"""
+    cls = [x for x in role_walk(r) if isinstance(x, tuple) and x[0] == "agg" and isinstance(x[1], str) and x[1] in crate.bodies] if r is not None else []
+    if not cls:
+        return False
+    for x in cls:
+        cb = crate.bodies[x[1]]
+        rr = strip_role(cb.role_of_local(0))
+        if not (isinstance(rr, tuple) and rr[0] == "call" and rr[1] == "contains_key"):
+            return False
+        if any(c.callee and c.callee.name in ("contains", "contains_key", "get", "is_some", "is_none") and c.callee.name != "contains_key" for c in cb.calls):
+            return False
+        if sum(1 for c in cb.calls if c.callee and c.callee.name == "contains_key") != 1:
+            return False
+    return True
+
+
 def _class_not_final(r):
     """`match eg.lookup(&x) { Some(i) => map.contains_key(&i.id), None => false }`: false unless the node's class is final"""
     r = strip_role(r) if r is not None else None
@@ -121,13 +139,13 @@ def x0(ctx):
                 allowed += 1
             elif kind == "true" and C.is_forall_role(crate, cond_role[txt], "contains_key", over=("applied_id_occurrences",)):
                 allowed += 1
-            elif kind == "false" and txt.startswith("unwrap_or(map(lookup("):
+            elif kind == "false" and txt.startswith("unwrap_or(map(lookup(") and _closure_is_table_test(crate, cond_role.get(txt)):
                 allowed += 1
             elif kind == "false" and txt.startswith("contains_key("):
                 allowed += 1
             elif kind == "false" and _class_not_final(cond_role.get(txt)):
                 allowed += 1
-            elif kind == "false" and txt.startswith("is_some_and(lookup(") and "contains_key" in _deep_names(crate, cond_role.get(txt)):
+            elif kind == "false" and txt.startswith("is_some_and(lookup(") and _closure_is_table_test(crate, cond_role.get(txt)):
                 allowed += 1
             else:
                 ctx.bad("push-extra-guard:%d:%s" % (i, txt[:40]), "heap push #%d in Extractor::new is additionally guarded by %s %s — candidates can be dropped" % (i, kind, txt), where_of(b, c.bb))
